@@ -68,13 +68,17 @@ fn block<F: std::future::Future>(f: F) -> Option<F::Output> {
 }
 
 fn run_case(case: &Value) -> Value {
-    let n = case["n"].as_u64().unwrap() as usize;
+    // n: replies in the script; calls: calls in the chain (more than n: the stream is still owed
+    // replies when the script ends with end-of-stream or with nothing more to read)
+    let n = case.get("calls").and_then(|c| c.as_u64()).unwrap_or_else(|| case["n"].as_u64().unwrap()) as usize;
     let (sock, sh) = SSocket::new(parse_events(&case["events"]));
     let mut conn = Connection::new(sock);
     let calls: Vec<Call<Method>> = (0..n).map(|i| Call::new(Method::Get { id: i as u32 })).collect();
     let mut steps = Vec::new();
     let mut stuck = false;
     let mut after_drop: Value = Value::Null;
+    let mut after_end: Value = Value::Null;
+    let mut after_stuck: Value = Value::Null;
     // receives before the chain (their results are not held: the borrow checker forbids it)
     let pre = case.get("pre").and_then(|p| p.as_u64()).unwrap_or(0);
     'pre: for _ in 0..pre {
@@ -117,7 +121,16 @@ fn run_case(case: &Value) -> Value {
             loop {
                 let mut nx = stream.next();
                 match poll_once(std::pin::Pin::new(&mut nx)) {
-                    Poll::Ready(None) => break 'outer,
+                    Poll::Ready(None) => {
+                        // the end of the stream (and polling a finished stream again) touches nothing
+                        let v1: Vec<String> = held.iter().map(|s| hex(s.as_bytes())).collect();
+                        let mut nx2 = stream.next();
+                        let again = matches!(poll_once(std::pin::Pin::new(&mut nx2)), Poll::Ready(None));
+                        let v2: Vec<String> = held.iter().map(|s| hex(s.as_bytes())).collect();
+                        after_end = json!({"views": v1, "views_again": v2, "none_again": again,
+                                           "data_reads": sh.borrow().data_reads});
+                        break 'outer;
+                    }
                     Poll::Ready(Some(r)) => {
                         let res = match r {
                             Ok(Ok(reply)) => match reply.into_parameters() {
@@ -141,6 +154,9 @@ fn run_case(case: &Value) -> Value {
                     Poll::Pending => {
                         if sh.borrow().exhausted {
                             stuck = true;
+                            // the transport has nothing (yet): a pending poll reads nothing
+                            let v: Vec<String> = held.iter().map(|s| hex(s.as_bytes())).collect();
+                            after_stuck = json!({"views": v, "data_reads": sh.borrow().data_reads});
                             break 'outer;
                         }
                     }
@@ -154,7 +170,8 @@ fn run_case(case: &Value) -> Value {
             after_drop = json!(views);
         }
     }
-    json!({"id": case["id"], "steps": steps, "stuck": stuck, "after_drop": after_drop})
+    json!({"id": case["id"], "steps": steps, "stuck": stuck, "after_drop": after_drop,
+           "after_end": after_end, "after_stuck": after_stuck})
 }
 
 fn main() {
